@@ -1,7 +1,7 @@
 (* C08 -- Wildcard matching is IAM glob matching, never regular-expression matching.
    Statements only; every proof is [exact] of a lemma proved in Glob/Glob.v. *)
 From Coq Require Import List Bool NArith.
-From PV Require Import Base.Str Glob.Glob Runner.
+From PV Require Import Base.Str Glob.Glob Run.RState.
 Import ListNotations.
 
 (* For EVERY alphabet with decidable equality and any two wildcard characters: the matcher accepts
